@@ -67,6 +67,15 @@ P = {
         "`tzmap cc`: every present key must resolve, ~500 absent keys must not, `tzmap show` and dconv --zone MAP:KEY; "
         "compiled maps: every truncation, offset-field faults, byte corruptions.",
    note=SAN + "the .tzmap payloads are not shipped; sources are generated. " + TB, ref="3 C19"),
+ "C08": dict(cat="exploration", tech="reference-model monitor (ordinal/seconds order) over dutdrv comparisons, dtest exit codes and dsort outputs (permutation + monotonicity)",
+   text="dt_dtcmp/dt_dt_in_range_p through dtest's code path for 11 kinds (ymd, ywd, yd, ymcw, bizda, ldn, time, three "
+        "date-time spellings, epoch) on neighbourhood and random pairs, antisymmetry, dtest for all 9 operators, dsort "
+        "[-r] on 120 generated files: permutation of the input multiset and monotone keys.",
+   note=SAN + "mixed kinds are out of scope; sort(1) runs under LC_ALL=C. " + TB, ref="3 C08"),
+ "C14": dict(cat="exploration", tech="reference-model monitor (lib/leap-seconds.list) over dconv --zone TAI/GPS, ddiff %rS, dadd +Nrs",
+   text="Offsets at every table entry -2..+2 s, midpoints, year starts to 4093, 2^31 and 2^32 +-1; %rS on ordered pairs of "
+        "boundary instants incl. antisymmetry; +-Nrs from -5..+5 s around every inserted second and around 1972-01-01.",
+   note=SAN + "TAI-UTC before 1972 is the table's first value. " + TB, ref="3 C14"),
 }
 
 NOT_YET = {}
